@@ -127,6 +127,16 @@ func (s *OnDiskAggTrigger) Fire(keyPath string, records []trigger.Record) {
 		records[len(records)-1].Index(),
 		tf.Duration,
 		int16(year))
+	// the records of one write are not necessarily in time order
+	for i := range records {
+		t := io.IndexToTime(records[i].Index(), tf.Duration, int16(year))
+		if t.Before(head) {
+			head = t
+		}
+		if t.After(tail) {
+			tail = t
+		}
+	}
 
 	// query the upper bound since it will contain the most candles
 	window, err := utils.CandleDurationFromString(s.destinations.UpperBound().String)
@@ -157,7 +167,8 @@ func (s *OnDiskAggTrigger) Fire(keyPath string, records []trigger.Record) {
 			return
 		}
 
-		cs = io.ColumnSeriesUnion(cs, &c.cs)
+		// the right series wins on equal epochs: the records just written replace the cached ones
+		cs = io.ColumnSeriesUnion(&c.cs, cs)
 
 		s.write(tbk, cs, tail, head, elements)
 
@@ -206,7 +217,10 @@ type cachedAgg struct {
 }
 
 func (c *cachedAgg) Valid(tail, head time.Time) bool {
-	return tail.Unix() >= c.tail.Unix() && head.Unix() <= c.head.Unix()
+	// the whole written range [head, tail] has to lie inside the cached range: a write that
+	// starts in an earlier window needs that window's other bars from the database
+	return tail.Unix() >= c.tail.Unix() && head.Unix() <= c.head.Unix() &&
+		head.Unix() >= c.tail.Unix() && tail.Unix() <= c.head.Unix()
 }
 
 func (s *OnDiskAggTrigger) writeAggregates(
